@@ -31,6 +31,9 @@ CHECKS = {
  "C10": ("bounded-exhaustive enumeration of all sparsity patterns x row/column magnitude assignments (1e-15..1e15) x P menu x cone lists x equilibrate_* settings on the real DefaultSolver::new; entry-for-entry oracle on the public data/equilibration fields",
          "Every enumerated problem (about 2e7 in quick) is constructed by the real constructor and the internal data are compared entry for entry with c*D*P*D, E*A*D, c*D*q, E*b of the user's data, together with the cumulative scaling bounds, reciprocals, unit scaling of all-zero rows/columns in scalar cones, constancy of E on every non-scalar cone and bitwise untouched data when disabled.",
          "relative 1e-13 on entries, 64-ulp slack on bounds, 8-ulp spread allowed for E on a non-scalar cone (see DESIGN.md false-alarm log)", "DESIGN.md §5 C10"),
+ "C11": ("exhaustive enumeration of every sparsity pattern of P (upper triangle, with/without diagonal entries) and A x cone lists (<=2 atoms [thorough 3] incl. dense and sparse-expanded SOC, GenPow, Exp, PSD, empty cones) x both triangles through the real assemble_kkt_matrix, and of lattice scaling points (s,z,mu) on the real DirectLDLKKTSolver::update; oracle: entry-by-entry map/coordinate check, disjoint cover of all entries, dense Schur elimination of the auxiliary block vs the cones' mul_Hs, inertia by Jacobi eigenvalues",
+         "Every user entry must sit at the recorded index and coordinate, the diagonal must be complete, the maps must partition the matrix, the sign vector must equal the documented pattern and the inertia of the regularised matrix; after each scaling update eliminating the auxiliary variables must give exactly -H as applied by the cones, different cones must not be coupled, and the stored copy must equal the user's P and A bit for bit (no regularisation left).",
+         "distinct prime values identify entries; Schur-vs-operator tolerance 1e-12 relative per cone block (largest observed ratio 7e-4); near-singular inertia cases skipped", "DESIGN.md §5 C11"),
  "C12": ("bounded-exhaustive enumeration (all symmetric patterns n<=5 x all permutations x all D-sign vectors x 5 value/regularisation variants; every vector in {0..n}^n as perm; all small encodings; all update/scale/offset/refactor histories to depth 4) on the real QDLDLFactorisation, backward-error oracle in dense arithmetic + exact rational zero-pivot oracle",
          "Every case in the stated bound is factored, solved and (for histories) refactored by the real public clarabel::qdldl API; each result is judged from the returned L, D, Dinv, perm, inertia and counts against PAP'=LDL' elementwise with a 64*n*eps*|L||D||L'| bound, the regularisation rule, bitwise equality of refactor vs. fresh factorisation, and mandatory errors for every invalid permutation / structure / exactly-zero pivot.",
          "dense reference arithmetic in mc/src/props/c12.rs is trusted; growth is bounded by construction (diagonally dominant or +-1 data); n<=40 random matrices only as a labelled sampling supplement",
